@@ -16,8 +16,23 @@ open AdaptaVerif.Model.Geometry (Pt)
 
 def optNat (s : String) : Option Nat := if s == "-" then none else s.toNat?
 
-def stepLines (c : Case) (key : String) (i : Nat) : List (Array String) :=
-  ((c.get key).filter (fun l => l.size > 0 && nat! l[0]! == i)).toList
+/-- the `h*` lines of a case grouped by step index (built once per case) -/
+abbrev Buckets := Array (Array (Array String))
+
+def hKeys : List String := ["hst", "hn", "he", "himp", "hop", "hret"]
+
+def mkBuckets (c : Case) : Buckets := Id.run do
+  let mut b : Buckets := #[]
+  for l in c.lines do
+    if l.size ≥ 2 && hKeys.contains l[0]! then
+      let i := nat! l[1]!
+      while b.size ≤ i do b := b.push #[]
+      b := b.modify i (fun a => a.push l)
+  return b
+
+/-- lines of step `i` with keyword `key`, without the keyword (first token = step index) -/
+def stepLines (b : Buckets) (key : String) (i : Nat) : List (Array String) :=
+  (((b[i]?.getD #[]).filter (fun l => l[0]! == key)).map (fun l => l.extract 1 l.size)).toList
 
 structure St where
   s : Imp
@@ -25,12 +40,12 @@ structure St where
   anchor : Option Nat
   deriving Inhabited
 
-def himp (c : Case) (i : Nat) (what : String) : List String :=
+def himp (c : Buckets) (i : Nat) (what : String) : List String :=
   match (stepLines c "himp" i).find? (fun l => l[1]?.getD "" == what) with
   | some l => (l.extract 2 l.size).toList
   | none => []
 
-def parseState (c : Case) (i : Nat) : Option St := do
+def parseState (c : Buckets) (i : Nat) : Option St := do
   let h ← (stepLines c "hst" i).head?
   let mut nodes : List HNode := []
   for l in stepLines c "hn" i do
@@ -63,6 +78,7 @@ def applyOp (s : Imp) (op : Array String) : Option (Imp × Option (Option Nat ×
   let t := s.t
   match op[1]?.getD "" with
   | "nop" => some (s, none)
+  | "resync" => some (s, none)
   | "split" => do
     let x ← num? (op[4]?.getD "")
     let y ← num? (op[5]?.getD "")
@@ -205,8 +221,9 @@ def jinvb (s : Imp) : Bool :=
 def treePreserving (kind : String) : Bool :=
   ["nop", "split", "contract", "setpt", "rzle", "move"].contains kind
 
-def checkOps (c : Case) : CaseResult := Id.run do
-  let nsteps := (c.get "hst").size
+def checkOps (c0 : Case) : CaseResult := Id.run do
+  let c := mkBuckets c0
+  let nsteps := (c0.get "hst").size
   let mut stats : List (String × Nat) := []
   match parseState c 0 with
   | none => return { verdict := .diverge "ops: cannot parse the initial state", nontrivial := false }
@@ -237,6 +254,9 @@ def checkOps (c : Case) : CaseResult := Id.run do
               if r.isSome then ret := r
         let kind := kinds.head?.getD "?"
         stats := bumpStats stats s!"op.{kind}" 1
+        if kind == "resync" then
+          cur := after
+          continue
         let beforeOk := treeOk cur.s.t
         let afterOk := treeOk after.s.t
         match ms with
@@ -271,7 +291,7 @@ def checkOps (c : Case) : CaseResult := Id.run do
           -- the return value of moveJunctionAlongCommonEdge
           match (stepLines c "hret" i).head?, ret with
           | some l, some (ns, ch) =>
-            if (optNat (l[1]?.getD "-")).isSome != ns.isSome || (l[2]?.getD "0" == "1") != ch then
+            if (optNat (l[1]?.getD "-")).isSome != ns.isSome || (l[2]?.getD "0" != "x" && (l[2]?.getD "0" == "1") != ch) then
               diverge := diverge <|> some s!"step {i} ({kinds}): return value differs: model ({onStr ns},{ch}) libavoid ({l[1]?.getD "-"},{l[2]?.getD "0"})"
           | _, _ => pure ()
           if m.t.nodes.length != cur.s.t.nodes.length || m.t.edges.length != cur.s.t.edges.length then nontrivial := true
